@@ -258,6 +258,77 @@ class LogIO(io.BytesIO):
         return super().write(b)
 
 
+def _api_file(ctx: Ctx, data: bytes) -> str:
+    """A real file holding `data` (for file transmissions, which a terminal with force_direct_transmission reads)."""
+    import hashlib
+    path = os.path.join(runner(ctx).dir, "img_" + hashlib.sha1(data).hexdigest()[:16] + ".bin")
+    if not os.path.exists(path):
+        Path(path).write_bytes(data)
+    return path
+
+
+def _api_op(ctx: Ctx, term, gc, op):
+    name = op[0]
+    if name == "write":
+        term.write(bytes.fromhex(op[1]))
+    elif name == "writestr":
+        term.write(op[1], flush=True)
+    elif name == "writecmd":
+        term.writecmd(bytes.fromhex(op[1]))
+    elif name == "transmit":
+        cmd = gc.TransmitCommand(image_id=op[1], medium=gc.TransmissionMedium.DIRECT, data=bytes.fromhex(op[2]),
+                                 format=gc.Format.PNG, quiet=gc.Quietness.QUIET_UNLESS_ERROR)
+        if op[3]:
+            cmd.set_placement(rows=op[3][0], cols=op[3][1], virtual=True, placement_id=op[3][2])
+        try:
+            term.send_command(cmd)
+        except ValueError:          # max_command_size too small for this header: nothing is written
+            ctx.count("api-op-rejected")
+    elif name == "transmitfile":
+        cmd = gc.TransmitCommand(image_id=op[1], medium=gc.TransmissionMedium.FILE, data=bytes.fromhex(op[2]))
+        try:
+            term.send_command(cmd)
+        except ValueError:
+            ctx.count("api-op-rejected")
+        except OSError:             # a force_direct_transmission terminal tries to read the (non-existent) file first
+            ctx.count("api-op-rejected:no-such-file")
+    elif name == "transmitpath":    # a file that exists: sent by name, or read and sent inline by a force_direct_transmission terminal
+        cmd = gc.TransmitCommand(image_id=op[1], medium=gc.TransmissionMedium.FILE,
+                                 data=_api_file(ctx, bytes.fromhex(op[2])).encode())
+        ctx.count("api-transmitpath:" + ("inlined" if term.force_direct_transmission else "by-name"))
+        try:
+            term.send_command(cmd)
+        except ValueError:
+            ctx.count("api-op-rejected")
+    elif name == "put":
+        try:
+            term.send_command(gc.PutCommand(image_id=op[1], placement_id=op[2], rows=op[3], cols=op[4], virtual=True))
+        except ValueError:
+            ctx.count("api-op-rejected")
+    elif name == "placeholder":
+        kw = dict(image_id=op[1], placement_id=op[2], end_col=op[3], end_row=op[4])
+        if op[5] == "abs":
+            term.print_placeholder(pos=(op[6], op[7]), **kw)
+        elif op[5] == "lf":
+            term.print_placeholder(use_line_feeds=True, **kw)
+        elif op[5] == "nosave":
+            term.print_placeholder(use_save_cursor=False, **kw)
+        else:
+            term.print_placeholder(**kw)
+    elif name == "move":
+        term.move_cursor(**op[1])
+    elif name == "moveabs":
+        term.move_cursor_abs(**op[1])
+    elif name == "margins":
+        term.set_margins(op[1], op[2])
+    elif name == "scroll":
+        (term.scroll_up if op[1] == "up" else term.scroll_down)(op[2])
+    elif name == "clear":
+        {"line": term.clear_line, "screen": term.clear_screen, "reset": term.reset}[op[1]]()
+    else:
+        raise ValueError(name)
+
+
 def _check_api(ctx: Ctx, c: dict):
     import tupimage
     from tupimage import graphics_command as gc
@@ -267,52 +338,33 @@ def _check_api(ctx: Ctx, c: dict):
     stream = LogIO(log)
     script_out = io.StringIO()
     term = GraphicsTerminal(out_command=stream, out_display=stream, in_response=LogIO([]), in_userinput=LogIO([]),
-                            max_command_size=c.get("max"), num_tmux_layers=c.get("tmux", 0), shellscript_out=script_out)
+                            max_command_size=c.get("max"), num_tmux_layers=c.get("tmux", 0), shellscript_out=script_out,
+                            force_placeholders=bool(c.get("fp", False)), force_direct_transmission=bool(c.get("fd", False)))
+    # derived terminals: every object below shares the streams and the script with `term`; whatever any of them
+    # writes to the streams is part of "what the library wrote to the terminal"
+    terms = {"0": term}
     for op in c["ops"]:
         name = op[0]
         ctx.count("api-op:" + name)
-        if name == "write":
-            term.write(bytes.fromhex(op[1]))
-        elif name == "writestr":
-            term.write(op[1], flush=True)
-        elif name == "writecmd":
-            term.writecmd(bytes.fromhex(op[1]))
-        elif name == "transmit":
-            cmd = gc.TransmitCommand(image_id=op[1], medium=gc.TransmissionMedium.DIRECT, data=bytes.fromhex(op[2]),
-                                     format=gc.Format.PNG, quiet=gc.Quietness.QUIET_UNLESS_ERROR)
-            if op[3]:
-                cmd.set_placement(rows=op[3][0], cols=op[3][1], virtual=True, placement_id=op[3][2])
-            try:
-                term.send_command(cmd)
-            except ValueError:          # max_command_size too small for this header: nothing is written
-                ctx.count("api-op-rejected")
-        elif name == "transmitfile":
-            cmd = gc.TransmitCommand(image_id=op[1], medium=gc.TransmissionMedium.FILE, data=bytes.fromhex(op[2]))
-            term.send_command(cmd)
-        elif name == "put":
-            term.send_command(gc.PutCommand(image_id=op[1], placement_id=op[2], rows=op[3], cols=op[4], virtual=True))
-        elif name == "placeholder":
-            kw = dict(image_id=op[1], placement_id=op[2], end_col=op[3], end_row=op[4])
-            if op[5] == "abs":
-                term.print_placeholder(pos=(op[6], op[7]), **kw)
-            elif op[5] == "lf":
-                term.print_placeholder(use_line_feeds=True, **kw)
-            elif op[5] == "nosave":
-                term.print_placeholder(use_save_cursor=False, **kw)
-            else:
-                term.print_placeholder(**kw)
-        elif name == "move":
-            term.move_cursor(**op[1])
-        elif name == "moveabs":
-            term.move_cursor_abs(**op[1])
-        elif name == "margins":
-            term.set_margins(op[1], op[2])
-        elif name == "scroll":
-            (term.scroll_up if op[1] == "up" else term.scroll_down)(op[2])
-        elif name == "clear":
-            {"line": term.clear_line, "screen": term.clear_screen, "reset": term.reset}[op[1]]()
-        else:
-            raise ValueError(name)
+        if name == "use":               # switch the object the following operations are called on
+            term = terms[str(op[1])]
+            continue
+        if name == "clone":             # ["clone", src, dst, {clone_with kwargs}]
+            terms[str(op[2])] = terms[str(op[1])].clone_with(**op[3])
+            for kw in op[3]:
+                ctx.count("api-clone_with:" + kw)
+            if not op[3]:
+                ctx.count("api-clone_with:(nothing)")
+            continue
+        if name == "setattr":           # ["setattr", who, attribute, value]: public attributes changed after construction
+            if op[2] not in ("num_tmux_layers", "max_command_size", "force_placeholders", "force_direct_transmission"):
+                raise ValueError(op[2])
+            setattr(terms[str(op[1])], op[2], op[3])
+            ctx.count("api-setattr:" + op[2])
+            continue
+        _api_op(ctx, term, gc, op)
+    if len(terms) > 1:
+        ctx.count("api-derived-terminals", len(terms) - 1)
     written = stream.getvalue()
     script = script_out.getvalue().encode("utf-8")
     ctx.count("api-script-bytes", len(script))
@@ -490,12 +542,16 @@ def cases(ctx: Ctx):
     # public paths
     for i in range(60 if quick else 600):
         yield gen_api(rng, i)
+    # public paths on derived terminals (clone_with, attributes changed after construction)
+    yield from derived_grid(rng)
+    for i in range(80 if quick else 800):
+        yield gen_api_derived(rng, i)
 
 
-def gen_api(rng, i):
+def gen_api_ops(rng, n):
     ops = []
     printable = bytes(range(32, 127))
-    for _ in range(rng.randrange(1, 7)):
+    for _ in range(n):
         r = rng.randrange(12)
         if r == 0:
             ops.append(["write", bytes(rng.randrange(256) for _ in range(rng.randrange(0, 40))).hex()])
@@ -522,11 +578,103 @@ def gen_api(rng, i):
                                    ["margins", 2, 20], ["scroll", "up", 3], ["scroll", "down", 1000000]]))
         else:
             ops.append(["clear", rng.choice(["line", "screen", "reset"])])
+    return ops
+
+
+def gen_api(rng, i):
+    ops = gen_api_ops(rng, rng.randrange(1, 7))
     c = {"k": "api", "ops": ops, "sh": 2 if i % 5 == 0 else 1}
     if rng.random() < 0.7:
         c["max"] = rng.choice([64, 80, 100, 150, 300, 4096])
     if rng.random() < 0.3:
         c["tmux"] = rng.choice([1, 2])
+    return c
+
+
+# Derived terminals: objects made with clone_with (shallow copies sharing the streams and the script) and public
+# attributes changed after construction.  Whatever object an operation is called on, what it writes to the streams must be
+# what the script reproduces - so nothing that shapes the bytes (wrapper template, chunk size, conversion flags) may be
+# remembered from another object or from an earlier moment.
+def _burst(rng, size: int):
+    payload = bytes(rng.choice([rng.randrange(256), 45, 0]) for _ in range(size))
+    return [["transmit", rng.randrange(1, 2**32), payload.hex(), rng.choice([None, [2, 3, 7]])],
+            ["put", rng.randrange(1, 2**24), rng.randrange(1, 2**16), 2, 3],
+            ["write", b"text 100%\n".hex()],
+            rng.choice([["placeholder", rng.randrange(1, 2**32), 5, 3, 2, "cursor", 0, 0], ["writecmd", b"\x1b_Gi=1,a=d\x1b\\".hex()],
+                        ["transmitpath", rng.randrange(1, 2**24), bytes(rng.randrange(256) for _ in range(rng.randrange(1, 90))).hex()]])]
+
+
+def derived_grid(rng):
+    """every (layers before, layers after) x way of deriving x chunk size: a burst of operations on the derived object and
+    on the original in alternation"""
+    n = 0
+    for base in (0, 1, 2):
+        for new in (0, 1, 2):
+            for how in ("clone", "setattr", "clone-then-setattr-original", "clone-of-clone", "clone-other-options"):
+                for mx in (None, 120):
+                    size = rng.choice([0, 30, 150]) if mx else rng.choice([0, 30, 400])
+                    b = lambda: _burst(rng, size)
+                    if how == "clone":
+                        ops = b() + [["clone", 0, 1, {"num_tmux_layers": new}], ["use", 1]] + b() + [["use", 0]] + b() + [["use", 1]] + b()
+                    elif how == "setattr":
+                        ops = b() + [["setattr", 0, "num_tmux_layers", new]] + b() + [["setattr", 0, "max_command_size", 90]] + b()
+                    elif how == "clone-then-setattr-original":
+                        ops = [["clone", 0, 1, {}], ["setattr", 0, "num_tmux_layers", new], ["use", 1]] + b() + [["use", 0]] + b() + \
+                              [["setattr", 1, "max_command_size", 200], ["use", 1]] + b()
+                    elif how == "clone-of-clone":
+                        ops = [["clone", 0, 1, {"num_tmux_layers": new}], ["clone", 1, 2, {"force_placeholders": True}],
+                               ["setattr", 2, "max_command_size", 100], ["setattr", 1, "num_tmux_layers", base], ["use", 2]] + b() + \
+                              [["use", 0]] + b() + [["use", 1]] + b()
+                    else:
+                        ops = [["clone", 0, 1, {"force_direct_transmission": True, "force_placeholders": False}], ["use", 1]] + b() + \
+                              [["clone", 1, 2, {"num_tmux_layers": new, "force_direct_transmission": False}], ["use", 2]] + b() + [["use", 1]] + b()
+                    c = {"k": "api", "ops": ops, "sh": 2 if n % 9 == 0 else 1, "tmux": base}
+                    if mx:
+                        c["max"] = mx
+                    n += 1
+                    yield c
+
+
+def gen_api_derived(rng, i):
+    """random histories over up to four objects"""
+    names = [0]
+    ops = []
+    for _ in range(rng.randrange(3, 10)):
+        r = rng.random()
+        if r < 0.25 and len(names) < 4:
+            kw = {}
+            if rng.random() < 0.7:
+                kw["num_tmux_layers"] = rng.choice([0, 1, 2, 3])
+            if rng.random() < 0.3:
+                kw["force_placeholders"] = rng.random() < 0.5
+            if rng.random() < 0.3:
+                kw["force_direct_transmission"] = rng.random() < 0.5
+            dst = len(names)
+            ops.append(["clone", rng.choice(names), dst, kw])
+            names.append(dst)
+            if rng.random() < 0.7:
+                ops.append(["use", dst])
+        elif r < 0.45:
+            who = rng.choice(names)
+            attr = rng.choice(["num_tmux_layers", "num_tmux_layers", "max_command_size", "force_direct_transmission", "force_placeholders"])
+            val = {"num_tmux_layers": rng.choice([0, 1, 2, 3]), "max_command_size": rng.choice([None, 64, 90, 120, 300, 4096]),
+                   "force_direct_transmission": rng.random() < 0.5, "force_placeholders": rng.random() < 0.5}[attr]
+            ops.append(["setattr", who, attr, val])
+        elif r < 0.6:
+            ops.append(["use", rng.choice(names)])
+        elif r < 0.8:
+            ops += _burst(rng, rng.choice([0, 10, 100, 300]))[:rng.randrange(1, 5)]
+        else:
+            ops += gen_api_ops(rng, rng.randrange(1, 3))
+    c = {"k": "api", "ops": ops, "sh": 2 if i % 5 == 0 else 1}
+    if rng.random() < 0.6:
+        c["max"] = rng.choice([64, 80, 100, 150, 300, 4096])
+    if rng.random() < 0.5:
+        c["tmux"] = rng.choice([1, 2])
+    if rng.random() < 0.2:
+        c["fd"] = True
+    if rng.random() < 0.2:
+        c["fp"] = True
     return c
 
 
